@@ -26,6 +26,12 @@ BuildOk(e) ==
 \* the configuration describes (length field = real length, flags as the payload kind requires)
 LayoutOk(e) == LET want == NewMessage(e.conf, None) IN
                (ConfFits(e.conf) /\ WellFormed(want)) => (e.res.v = "ok" /\ e.res.bytes = EncMessage(want))
+\* ---- C01 through the public constructor: the message Message::new builds from a configuration that describes a well-formed message
+\* serialises and parses back to itself, whole and with nothing left
+RoundNewOk(e) == LET want == NewMessage(e.conf, None)  r == e.res IN
+                 (ConfFits(e.conf) /\ WellFormed(want)) => (r.v = "ok" /\ r.parse.v = "msg" /\ r.parse.m = r.m /\ r.parse.consumed = Len(r.bytes) /\ r.parse.rest = <<>>)
+\* ---- extras: add_storage_header(None) stamps the current time (within the clock readings taken around the call, one second of slack)
+StampNowOk(e) == e.res.v = "ok" /\ e.res.secs_minus_before >= 0 - 1 /\ e.res.after_minus_secs >= 0 - 1 /\ e.res.us < 1000000
 \* ---- C15: one argument.  e.a; e.res = [v, len, be, le, valid]
 ArgOk(e) ==
   LET a == e.a  r == e.res IN
@@ -46,6 +52,8 @@ RealOk(e) ==
     [] d.v = "some-any" -> r.v = "some"
 Matches(e) == CASE e.op = "build" -> BuildOk(e)
                 [] e.op = "layout" -> LayoutOk(e)
+                [] e.op = "roundnew" -> RoundNewOk(e)
+                [] e.op = "stampnow" -> StampNowOk(e)
                 [] e.op = "arg" -> ArgOk(e)
                 [] e.op \in {"from_ms", "from_us"} -> TsOk(e)
                 [] e.op = "real" -> RealOk(e)
